@@ -542,6 +542,7 @@ func emit(an *analysis, verbose bool) string {
 	items = uniqSorted(items)
 	w("/-- everything the analysis could not classify: (what, where, detail, concerns a library package?).\n    Obligations require the library part of this to be empty. -/\n")
 	w("def unknowns : List (String × String × String × Bool) := %s\n\n", leanList(items, true))
+	emitAllocs(an, w) // F-alloc (C09), allocs.go
 	w("end Gen.Facts\n")
 	if verbose {
 		fmt.Fprintf(os.Stderr, "gofacts: %d packages, %d functions, %d package vars, %d pkgvar stores (%d outside init), %d codec types, %d unknowns\n",
